@@ -25,7 +25,7 @@ func gatherMetrics() M {
 			var ls []string
 			for _, lp := range mm.GetLabel() {
 				v := lp.GetValue()
-				if i := strings.IndexByte(v, '('); i > 0 && strings.HasSuffix(v, ")") {
+				if i := strings.IndexByte(v, '('); lp.GetName() == "code" && i > 0 && strings.HasSuffix(v, ")") {
 					v = v[:i] // "0xc0(Node Busy)" -> "0xc0": descriptions are presentation, not accounting
 				}
 				ls = append(ls, lp.GetName()+"="+v)
